@@ -61,7 +61,35 @@ let next_list t (f : toks -> 'a) : 'a list =
   go k []
 let next_bool t = match next t with "1" | "true" -> true | _ -> false
 
-let prim_reject _ _ = false   (* Real / UTF8String / GeneralizedTime content: see DESIGN 4.1 *)
+(* Oracle for the universal content checks the model leaves open (DESIGN 4.1):
+   UTF8String (tag 12) is decided here by a plain UTF-8 validity check
+   (= Go's utf8.Valid); Real (9) and GeneralizedTime (24) are rejected, and
+   frames carrying them are compared on the no-panic bit only. *)
+let utf8_valid (bs : n list) : bool =
+  let rec go l = match l with
+    | [] -> true
+    | b :: r ->
+      let b = int_of_n b in
+      if b < 0x80 then go r
+      else if b < 0xC2 then false
+      else if b < 0xE0 then (match r with c :: r' when (int_of_n c) land 0xC0 = 0x80 -> go r' | _ -> false)
+      else if b < 0xF0 then
+        (match r with
+         | c :: d :: r' ->
+           let c = int_of_n c and d = int_of_n d in
+           let lo = if b = 0xE0 then 0xA0 else 0x80 and hi = if b = 0xED then 0x9F else 0xBF in
+           if c >= lo && c <= hi && d land 0xC0 = 0x80 then go r' else false
+         | _ -> false)
+      else if b < 0xF5 then
+        (match r with
+         | c :: d :: e :: r' ->
+           let c = int_of_n c and d = int_of_n d and e = int_of_n e in
+           let lo = if b = 0xF0 then 0x90 else 0x80 and hi = if b = 0xF4 then 0x8F else 0xBF in
+           if c >= lo && c <= hi && d land 0xC0 = 0x80 && e land 0xC0 = 0x80 then go r' else false
+         | _ -> false)
+      else false in
+  go bs
+let prim_reject (tag : n) (content : n list) : bool = (int_of_n tag = 12) && utf8_valid content
 
 let out_list (f : 'a -> string) (l : 'a list) : string =
   String.concat " " (string_of_int (List.length l) :: List.map f l)
@@ -106,6 +134,119 @@ let do_addvalue t =
   let name = next_hex t in let vs = next_list t next_hex in let more = next_list t next_hex in
   "OK " ^ out_attr (add_value (new_entry_attribute name vs) more)
 
+
+(* ---------- LDAP typed values: parsing (prefix notation) and printing ---------- *)
+let next_z t = z_of_string (next t)
+let next_n t = n_of_string (next t)
+let next_opt_hex t = match next t with "~" -> None | s -> Some (bytes_of_hex s)
+
+let next_control t : control =
+  match next t with
+  | "paging" -> let s = next_n t in let c = next_hex t in CPaging (s, c)
+  | "behera" -> let e = next_z t in let g = next_z t in let c = next_z t in CBehera (e, g, c)
+  | "vchuchange" -> CVChuChange
+  | "vchuwarn" -> CVChuWarn (next_z t)
+  | "managedsait" -> CManageDsaIT (next_bool t)
+  | "msnotif" -> CMsNotif | "msshowdel" -> CMsShowDel | "mslinkttl" -> CMsLinkTTL
+  | "str" -> let o = next_hex t in let c = next_bool t in let v = next_hex t in CString (o, c, v)
+  | k -> failwith ("bad control " ^ k)
+let next_controls t = next_list t next_control
+
+let rec next_filter t : filter =
+  match next t with
+  | "and" -> FAnd (next_list t next_filter)
+  | "or" -> FOr (next_list t next_filter)
+  | "not" -> FNot (next_filter t)
+  | "eq" -> let a = next_hex t in let v = next_hex t in FEq (a, v)
+  | "ge" -> let a = next_hex t in let v = next_hex t in FGe (a, v)
+  | "le" -> let a = next_hex t in let v = next_hex t in FLe (a, v)
+  | "approx" -> let a = next_hex t in let v = next_hex t in FApprox (a, v)
+  | "present" -> FPresent (next_hex t)
+  | "sub" -> let a = next_hex t in let i = next_opt_hex t in let anys = next_list t next_hex in
+             let f = next_opt_hex t in FSub (a, i, anys, f)
+  | "ext" -> let r = next_opt_hex t in let ty = next_opt_hex t in let v = next_hex t in
+             let dn = next_bool t in FExt (r, ty, v, dn)
+  | k -> failwith ("bad filter " ^ k)
+
+let next_request t : request =
+  match next t with
+  | "bind" -> let id = next_z t in let dn = next_hex t in let pw = next_hex t in RBind (id, dn, pw, next_controls t)
+  | "search" ->
+    let id = next_z t in let base = next_hex t in let sc = next_z t in let de = next_z t in
+    let sz = next_z t in let tm = next_z t in let ty = next_bool t in let f = next_filter t in
+    let attrs = next_list t next_hex in RSearch (id, base, sc, de, sz, tm, ty, f, attrs, next_controls t)
+  | "modify" ->
+    let id = next_z t in let dn = next_hex t in
+    let chs = next_list t (fun t -> let op = next_z t in let ty = next_hex t in let vs = next_list t next_hex in ((op, ty), vs)) in
+    RModify (id, dn, chs, next_controls t)
+  | "add" ->
+    let id = next_z t in let dn = next_hex t in
+    let attrs = next_list t (fun t -> let ty = next_hex t in let vs = next_list t next_hex in (ty, vs)) in
+    RAdd (id, dn, attrs, next_controls t)
+  | "del" -> let id = next_z t in let dn = next_hex t in RDel (id, dn, next_controls t)
+  | "ext" -> let id = next_z t in let name = next_hex t in RExt (id, name, next_opt_hex t)
+  | "unbind" -> RUnbind (next_z t)
+  | k -> failwith ("bad request " ^ k)
+
+let b01 b = if b then "1" else "0"
+let out_control (c : control) : string =
+  match c with
+  | CPaging (s, c) -> "paging " ^ string_of_n s ^ " " ^ hex_of_bytes c
+  | CBehera (e, g, c) -> "behera " ^ string_of_z e ^ " " ^ string_of_z g ^ " " ^ string_of_z c
+  | CVChuChange -> "vchuchange"
+  | CVChuWarn e -> "vchuwarn " ^ string_of_z e
+  | CManageDsaIT c -> "managedsait " ^ b01 c
+  | CMsNotif -> "msnotif" | CMsShowDel -> "msshowdel" | CMsLinkTTL -> "mslinkttl"
+  | CString (o, c, v) -> "str " ^ hex_of_bytes o ^ " " ^ b01 c ^ " " ^ hex_of_bytes v
+let out_controls cs = out_list out_control cs
+
+let out_message (m : message) : string =
+  match m with
+  | MBind (id, dn, pw, cs) -> String.concat " " ["bind"; string_of_z id; hex_of_bytes dn; hex_of_bytes pw; out_controls cs]
+  | MSearch (id, base, sc, de, sz, tm, ty, f, attrs, cs) ->
+    String.concat " " ["search"; string_of_z id; hex_of_bytes base; string_of_z sc; string_of_z de; string_of_z sz;
+                       string_of_z tm; b01 ty; hex_of_bytes f; out_list hex_of_bytes attrs; out_controls cs]
+  | MModify (id, dn, chs, cs) ->
+    String.concat " " ["modify"; string_of_z id; hex_of_bytes dn;
+                       out_list (fun ((op, ty), vs) -> string_of_z op ^ " " ^ hex_of_bytes ty ^ " " ^ out_list hex_of_bytes vs) chs;
+                       out_controls cs]
+  | MAdd (id, dn, attrs, cs) ->
+    String.concat " " ["add"; string_of_z id; hex_of_bytes dn;
+                       out_list (fun (ty, vs) -> hex_of_bytes ty ^ " " ^ out_list hex_of_bytes vs) attrs; out_controls cs]
+  | MDel (id, dn, cs) -> String.concat " " ["del"; string_of_z id; hex_of_bytes dn; out_controls cs]
+  | MExt (id, name) -> String.concat " " ["ext"; string_of_z id; hex_of_bytes name]
+  | MUnbind id -> "unbind " ^ string_of_z id
+
+let out_outcome f = function Ok x -> "OK " ^ f x | Err -> "ERR" | Panic -> "PANIC"
+
+(* strict = current tree (checked assertions), modfix = one element per value *)
+let receive bs = server_receive prim_reject true true bs
+
+(* req: typed request -> wire bytes | what the property says the handler sees | what the model of gldap decodes *)
+let do_req t =
+  let r = next_request t in
+  let w = wire r in
+  hex_of_bytes w ^ " | OK " ^ out_message (msg_of_request r) ^ " | " ^ out_outcome out_message (receive w)
+let do_decode t = out_outcome out_message (receive (next_hex t))
+let do_decode_pinned t = out_outcome out_message (server_receive prim_reject false false (next_hex t))
+(* stream of frames *)
+let do_stream t =
+  let bs = next_hex t in
+  let rs = serve_stream prim_reject true true (nat_of_int (List.length bs + 1)) bs in
+  out_list (fun o -> "[" ^ out_outcome out_message o ^ "]") rs
+(* ctl: typed control -> encoding | normalised fields *)
+let do_ctl t =
+  let c = next_control t in
+  hex_of_bytes (bytes_of (encode_control c)) ^ " | OK " ^ out_control (norm_control c)
+let do_ctldecode t =
+  match decode_packet prim_reject (next_hex t) with
+  | Ok p -> out_outcome out_control (decode_control prim_reject true p)
+  | Err -> "ERR" | Panic -> "PANIC"
+let do_behera t =
+  let opt t = match next t with "~" -> None | s -> Some (n_of_string s) in
+  let g = opt t in let e = opt t in let c = opt t in
+  out_outcome out_control (new_behera g e c)
+
 let dispatch kind t =
   match kind with
   | "convert" -> do_convert t
@@ -116,6 +257,13 @@ let dispatch kind t =
   | "convertrt" -> do_convertrt t
   | "entry" -> do_entry t
   | "addvalue" -> do_addvalue t
+  | "req" -> do_req t
+  | "decode" -> do_decode t
+  | "decode_pinned" -> do_decode_pinned t
+  | "stream" -> do_stream t
+  | "ctl" -> do_ctl t
+  | "ctldecode" -> do_ctldecode t
+  | "behera" -> do_behera t
   | k -> failwith ("unknown kind " ^ k)
 
 let () =
